@@ -13,7 +13,7 @@ RULE = ("Hypothesis-generated expression trees (depth <=4 quick / <=6 thorough) 
         "b=Int(1,signed), c/e=Bits(3)/Bits(5), s=Int(1).repeated(4), d=Data(3), o=Int(1).when(a): the 18 binary operators in BOTH "
         "operand orders with field/constant/sub-expression operands (reflected forms arise from constant-on-the-left), unary -,~, "
         "__nonzero__, __len__, indexing by constant/field/expression, constant-bound slicing incl. steps, concatenation/repetition of sliced sequences with the constant on either side, int/float/bool constants, chooses in list/dict/"
-        "positional/keyword form, if_true_then_else in list/positional form; right operands of ** and << bounded by construction. "
+        "positional/keyword form, if_true_then_else in list/positional form (both also in the documented shape: a bare field owning the selector, constant options); right operands of ** and << bounded by construction. "
         "(i) compile_expr_into_callable(expr)(pkt=parsed packet) vs eager evaluation of the mirrored tree with operator.* left to "
         "right: equal value and bool/int/float kind, or the same exception class; every compiled expression is evaluated on 4 "
         "packets in a row (a raising evaluation followed by a well-defined one included); (ii) the expression as Data size / "
